@@ -47,6 +47,17 @@ class CouplingSDE:
 
         self.mc_drift_h = None
         self.mc_drift_2h = None
+        # drift of the SDE scheme of the fine / coarse component (it depends on the level through the grid)
+        self.sde_drift_h = None
+        self.sde_drift_2h = None
+
+    def _sde_drift_of_the_current_level(self):
+        """drift function of the SDE scheme on the grid as it is now (the scheme of the Lévy Libor model integrates over
+        the jumps the chain simulates: it changes with the level)"""
+        process = copy.copy(self.fine_process)  # shares the model and the chain, owns its coefficient
+        if isinstance(process, MarkovChainLevyLiborModel):
+            process.coefficient_sszz = process._coefficient_sszz()
+        return process.sde_drift
 
     def one_simulation_cost(self, product) -> float:
         cost_fine_process = self.fine_process.one_simulation_cost(product=product)
@@ -67,6 +78,7 @@ class CouplingSDE:
         if self.level == 0:
             self.fine_process.initialisation(product=product)
             self.mc_drift_h = self.fine_process.markov_chain.process_drift()
+            self.sde_drift_h = self._sde_drift_of_the_current_level()
         else:
             self.driver_coupling_process.initialisation(
                 product=product, max_step_epsilon=self.epsilon
@@ -94,7 +106,7 @@ class CouplingSDE:
         z_jump = np.zeros(shape=(2, dimension, nb_of_jumps))
 
         a = self.model.a
-        sde_drift = self.fine_process.sde_drift
+        sde_drift_h, sde_drift_2h = self.sde_drift_h, self.sde_drift_2h
         mc_drift = np.stack(
             (np.atleast_2d(self.mc_drift_h), np.atleast_2d(self.mc_drift_2h))
         )
@@ -108,7 +120,8 @@ class CouplingSDE:
             ),
             start=1,
         ):
-            sde_drift_val = np.stack((sde_drift(t, zi[0]), sde_drift(t, zi[1])))
+            # each component with the drift of the scheme of its own level
+            sde_drift_val = np.stack((sde_drift_h(t, zi[0]), sde_drift_2h(t, zi[1])))
             a_zi = a(t, zi)
 
             d_mu = a_zi @ mc_drift
@@ -134,6 +147,7 @@ class CouplingSDE:
             self.driver_coupling_process.grid.h / 2
         ) ** self.model.driver.blumenthal_getoor_index()
         self.mc_drift_2h = copy.deepcopy(self.mc_drift_h)
+        self.sde_drift_2h = self.sde_drift_h
         self.initialisation(product=product)
         # note that the grid is refined in the next call:
         self.driver_coupling_process.next_level(
@@ -143,6 +157,7 @@ class CouplingSDE:
             max_step_epsilon=self.epsilon,
         )
         self.mc_drift_h = self.driver_coupling_process.fine_process.process_drift()
+        self.sde_drift_h = self._sde_drift_of_the_current_level()
 
         path_manager_level_l = copy.deepcopy(path_managers[-1])
         path_manager_level_l.update(self._process_representation)
